@@ -122,7 +122,7 @@ func (e *engine) Generate(seed uint64, idx int, tier string, avoid []harness.Fin
 	}
 	big := tier == "thorough" && r.Pct(20)
 	switch x := r.Intn(100); {
-	case x < 40:
+	case x < 34:
 		c.Scen = "s1"
 		c.P = 1 + r.Intn(3)
 		c.N = 1 + r.Intn(6)
@@ -141,7 +141,7 @@ func (e *engine) Generate(seed uint64, idx int, tier string, avoid []harness.Fin
 		if r.Pct(20) {
 			c.ReadPush, c.Chunk, c.SleepMs = true, 1+r.Intn(5), 0
 		}
-	case x < 65:
+	case x < 54:
 		c.Scen = "s2"
 		c.R = 2 + r.Intn(4)
 		c.Iter = 1 + r.Intn(4)
@@ -153,25 +153,25 @@ func (e *engine) Generate(seed uint64, idx int, tier string, avoid []harness.Fin
 		}
 		c.IntAt = 1 + r.Intn(10*c.Iter+4)
 		c.Nested = r.Pct(35)
-	case x < 85:
+	case x < 70:
 		c.Scen = "s3"
 		c.R = 2 + r.Intn(3)
 		c.Iter = 1 + r.Intn(4)
 		c.Kind = []string{"clos", "flavor", "hash", "struct"}[r.Intn(4)]
 		c.Resync = c.Kind != "hash" && r.Pct(40)
 		c.Acc = c.Kind == "clos" && r.Pct(50)
-	case x < 89:
+	case x < 73:
 		c.Scen = "s6"
 		c.R = 2 + r.Intn(3)
-	case x < 92:
+	case x < 78:
 		c.Scen = "s5"
 		c.R = 1 + r.Intn(3) // calling routines
 		c.Iter = 1 + r.Intn(4)
-	case x < 94:
+	case x < 82:
 		c.Scen = "s7"
 		c.R = 2 + r.Intn(3) // defining routines, one qualifier each
 		c.Iter = 1 + r.Intn(3)
-	case x < 96:
+	case x < 86:
 		c.Scen = "s8"
 		c.R = 1 + r.Intn(3) // jobs, each calls its closure from a routine
 		c.Iter = 1 + r.Intn(4)
@@ -502,7 +502,9 @@ func (c *Case) program(sfx string) program {
 			body = fmt.Sprintf("(progn (defvar *un%d%s* 1) (sim-emit \"r\" %d (boundp '*un%d%s*) (unintern '*un%d%s*) (boundp '*un%d%s*)))", t, sfx, t, t, sfx, t, sfx, t, sfx)
 		case "lookup":
 			// only looks things up, while others define
-			body = fmt.Sprintf("(dotimes (k 3) (sim-emit \"r\" %d (fboundp 'car) (boundp '*print-base*) (class-name (find-class 'fixnum)) (funcall 'shared%s k) (package-name (find-package :cl)) (symbol-value '*print-radix*)))", t, sfx)
+			spell := []string{":cl", "\"CL\"", "\"common-lisp\"", "\"Common-Lisp\"", ":gi", "\"cl-user\"", "\"Common-Lisp-User\""}
+			body = fmt.Sprintf("(dotimes (k 3) (sim-emit \"r\" %d (fboundp 'car) (boundp '*print-base*) (class-name (find-class 'fixnum)) (funcall 'shared%s k) (package-name (find-package %s)) (package-name (find-package %s)) (read-from-string \"cl:car\") (symbol-value '*print-radix*)))",
+				t, sfx, spell[t%len(spell)], spell[(t+3)%len(spell)])
 		case "exit":
 			// several routines run the same compiled return-from at once
 			body = fmt.Sprintf("(dotimes (k 3) (sim-emit \"r\" %d (sharedexit%s %d)))", t, sfx, t+1)
